@@ -43,11 +43,14 @@ pub struct CaseOut {
     /// A rendering of the case for the evidence samples.
     pub sample: Option<J>,
     pub counters: Vec<(String, u64)>,
+    /// Number of additional distinct non-trivial items covered by this case when a case is a block
+    /// of an exhaustive enumeration (items of different blocks are distinct by construction).
+    pub distinct_extra: u64,
 }
 
 impl CaseOut {
     pub fn new(key: String) -> CaseOut {
-        CaseOut { verdict: Verdict::Held, nontrivial: false, key, sample: None, counters: Vec::new() }
+        CaseOut { verdict: Verdict::Held, nontrivial: false, key, sample: None, counters: Vec::new(), distinct_extra: 0 }
     }
     pub fn count(&mut self, name: &str) {
         self.add(name, 1);
@@ -115,6 +118,7 @@ struct Agg {
     inconclusive_reasons: BTreeMap<String, u64>,
     violations: u64,
     nontrivial_keys: HashSet<u64>,
+    distinct_extra: u64,
     counters: BTreeMap<String, u64>,
     samples: Vec<J>,
     /// signature -> (count, first what, first replay path)
@@ -201,6 +205,7 @@ pub fn run_check(def: &CheckDef, cfg: &RunConfig) -> i32 {
                     for (k, v) in &out.counters {
                         *a.counters.entry(k.clone()).or_insert(0) += v;
                     }
+                    a.distinct_extra += out.distinct_extra;
                     if out.nontrivial {
                         a.nontrivial_keys.insert(hash_str(&out.key));
                         if a.samples.len() < 5 {
@@ -270,7 +275,7 @@ pub fn run_check(def: &CheckDef, cfg: &RunConfig) -> i32 {
     let mut unmet: Vec<String> = Vec::new();
     if cfg.cases_override.is_none() {
         for (name, min) in (def.needs)(cfg.tier) {
-            let got = if name == "distinct_nontrivial" { a.nontrivial_keys.len() as u64 } else { a.counters.get(name).copied().unwrap_or(0) };
+            let got = if name == "distinct_nontrivial" { a.nontrivial_keys.len() as u64 + a.distinct_extra } else { a.counters.get(name).copied().unwrap_or(0) };
             if got < min {
                 unmet.push(format!("{name}: observed {got} < required {min}"));
             }
@@ -282,7 +287,7 @@ pub fn run_check(def: &CheckDef, cfg: &RunConfig) -> i32 {
     observed.sort_by(|x, y| x.0.cmp(&y.0));
     let coverage = J::Obj(vec![
         ("evaluations".to_string(), J::Int(a.evaluations as i64)),
-        ("distinct_nontrivial".to_string(), J::Int(a.nontrivial_keys.len() as i64)),
+        ("distinct_nontrivial".to_string(), J::Int((a.nontrivial_keys.len() as u64 + a.distinct_extra) as i64)),
         ("rule".to_string(), J::s(def.rule)),
         ("samples".to_string(), J::Arr(a.samples.clone())),
         ("exhaustive".to_string(), J::Bool((def.exhaustive)(cfg.tier))),
@@ -326,7 +331,7 @@ pub fn run_check(def: &CheckDef, cfg: &RunConfig) -> i32 {
         a.held,
         a.inconclusive,
         a.violations,
-        a.nontrivial_keys.len(),
+        a.nontrivial_keys.len() as u64 + a.distinct_extra,
         wall
     );
     let shown: Vec<String> = a.counters.iter().map(|(k, v)| format!("{k}={v}")).collect();
